@@ -34,6 +34,15 @@ def write_tree(base, files):
             f.write(text)
 
 
+def lookup_place(case, run, root):
+    """parent directory (relative to the location) of a lookup root: every root has its own, and at location B each is moved
+    independently (other depth, other names)"""
+    place = (case.get('lookup_place') or {}).get(root, 'in2')
+    if run['loc'] == 'B':
+        place = {'in2': 'moved/lk', 'third_party/b': 'x', 'vendor/pkgs/g': 'some/where/else/entirely'}.get(place, place + '_b')
+    return place
+
+
 def run_one(base, case, run):
     cdir = os.path.join(base, case['id'])
     loc = os.path.join(cdir, LOCS[run['loc']])
@@ -43,7 +52,8 @@ def run_one(base, case, run):
     if not os.path.isdir(os.path.join(loc, 'in')):
         rev = run.get('tree') == 'rev'
         write_tree(os.path.join(loc, 'in'), dict(sorted(case['dsdl'].items(), reverse=rev)))
-        write_tree(os.path.join(loc, 'in2'), dict(sorted(case.get('lookup', {}).items(), reverse=rev)))
+        for rel, text in sorted(case.get('lookup', {}).items(), reverse=rev):
+            write_tree(os.path.join(loc, lookup_place(case, run, rel.split('/')[0])), {rel: text})
     tpl = case.get('user_templates')
     if tpl and not os.path.isdir(os.path.join(loc, 'tpl')):
         # user template directories = copies of the built-in ones, placed next to the inputs (they move with the location)
@@ -71,7 +81,7 @@ def run_one(base, case, run):
     def spell(target):
         return os.path.relpath(target, cwd) if run['paths'] == 'rel' and run['cwd'] != 'other' else target
     p_root, p_out = spell(os.path.join(loc, 'in', case['root'])), spell(out)
-    p_look = [spell(os.path.join(loc, 'in2', r)) for r in case.get('lookup_roots', [])]
+    p_look = [spell(os.path.join(loc, lookup_place(case, run, r), r)) for r in case.get('lookup_roots', [])]
 
     def command(args):
         cmd = [PY, '-m', 'nunavut', '--target-language', case['lang']]
